@@ -77,6 +77,16 @@ def gen_cases(tier, seed):
                 c = c * 1.7 if c * 1.7 * med <= 20 else c / 1.7
             start_kind = ["default", "perturbed", "generating"][r % 3]
             cases.append({"fam": fam, "gen": p, "n": n, "c": c, "start": start_kind, "prelude": bool(r % 2), "sub": int(rng.integers(1 << 31)), "cost": n / 500})
+        # user start values at the edges of the magnitude range (small and large data scale), where a wrong use of the
+        # start values (order, scale vs log-scale) is far from the optimum
+        for edge in ("small", "large"):
+            for _try in range(40):
+                p = _draw(rng, fam)
+                med = float(R.icdf(fam, 0.5, **p)) if fam != "vonmises" else 1.0
+                if fam == "vonmises" or (edge == "small" and med < 0.3) or (edge == "large" and med > 6):
+                    break
+            n = int(rng.choice([300, 1000]))
+            cases.append({"fam": fam, "gen": p, "n": n, "c": 2.0 if edge == "small" else 0.5, "start": "generating" if edge == "small" else "perturbed", "prelude": False, "sub": int(rng.integers(1 << 31)), "cost": n / 500})
     return cases
 
 
